@@ -69,11 +69,14 @@ POOL = [
     ("[[1, 2], ['a', 4]]", lambda s: core.to_value([[1, 2], ["a", 4]])),
     ("<<[1], <<2>>>>", lambda s: core.to_value(("set", [[1], ("set", [2])]))),
     ("parse('1 + 2')", lambda s: V.ValueNode(s.node12)),
+    ("[1, 1, 1]", lambda s: core.to_value([1, 1, 1])),
+    ("'aa'", lambda s: V.ValueString("aa")),
+    ("2", lambda s: V.ValueInt(2)),
 ]
 SUBPOOL = ["NULL", "TRUE", "0", "-1", "3", "1.5", "''", "'abc'", "[]",
            "[1, 2, 3]", "<<1, 'a'>>", "<<<'a' => 1, 2 => [3]>>>",
            "<*a = 1, f = fn(self) 1*>", "fn(x) x", "<*_str_ = fn(self) 1*>",
-           "[[1, 2], ['a', 4]]"]
+           "[[1, 2], ['a', 4]]", "[1, 1, 1]", "2"]
 POOL_INDEX = {name: i for i, (name, _) in enumerate(POOL)}
 
 
